@@ -17,4 +17,4 @@ def run(tier):
         "length guard rejects nothing an encryptor can produce, identical key-split derivations modulo the nonce's origin, same cipher function both ways, equal PAE component lists; "
         "plumbing of payload / key / footer / assertion through the 16 generic + 16 prelude wrappers and the setters; builders keep footer and assertion across builds",
         ["stream ciphers (AES-256-CTR, XChaCha20) are involutions under the same key/nonce; XChaCha20-Poly1305 decrypt inverts encrypt", "UTF-8 and serde_json round trips"],
-        extra, "that applying the keystream twice is the identity, UTF-8 preservation, JSON round trip (behaviour of dependencies over run-time values)")
+        extra, "that applying the keystream twice is the identity, UTF-8 preservation, JSON round trip (behaviour of dependencies over run-time values)", sem_rules={'C01.S0': 4, 'C01.S1': 4, 'C01.S10': 4})
